@@ -206,28 +206,69 @@ def run_scenario(exe, cat, sc, scratch, idx):
     return r
 
 
-def main():
-    exe, catp, pid, tier, scratch = sys.argv[1:6]
-    replay = sys.argv[6] if len(sys.argv) > 6 else None
-    t0 = time.time()
-    cat = json.load(open(catp))
-    shutil.rmtree(scratch, ignore_errors=True)
-    os.makedirs(scratch)
-    make_cache(scratch)
-    groups = GROUPS[pid]
-    scs = [s for s in cat["scenarios"] if s["group"] in groups]
-    if replay:
-        w = json.load(open(replay)); w = w.get("witness", w)
-        names = set(w.get("scenarios", []))
-        scs = [s for s in scs if s["name"] in names or s["name"].startswith("solo:") or s["name"] == "kinds:0:cli"]
-    with ThreadPoolExecutor(max_workers=12) as ex:
-        runs = list(ex.map(lambda a: run_scenario(exe, cat, a[1], scratch, a[0]), enumerate(scs)))
+def decode1090_scenarios(scs):
+    """the same histories for decode1090 (one reference per invocation: the receptions of each sensor are a run of their
+    own; explicit time stamps, so silences cost nothing: the reports of every aircraft are 0.5 s apart, and a second
+    variant leaves 700 s between the third and the fourth report of each aircraft)"""
+    out = []
+    for sc in scs:
+        if sc["group"] not in ("positions", "kinds") or sc["options"]["df_filter"] or sc["options"]["aircraft_filter"] or sc["options"]["via"] != "cli":
+            continue
+        for si, sensor in enumerate(sc["sensors"]):
+            ev = [e for e in sc["events"] if e["sensor"] == si]
+            if not ev:
+                continue
+            for variant in (["steady", "silence"] if sc["group"] == "positions" else ["steady"]):
+                d = dict(sc)
+                d["events"] = ev
+                d["sensor_index"] = si
+                d["variant"] = variant
+                d["name"] = f"{sc['name']}@sensor{si}:{variant}"
+                d["solo"] = sc["name"].startswith("solo:")
+                out.append(d)
+    return out
+
+
+def run_decode1090(exe, sc, scratch, idx):
+    r = Run(); r.name = sc["name"]; r.lines = []; r.all = None; r.tracks = {}; r.error = None; r.sc = sc
+    d = os.path.join(scratch, f"d1090_{idx}")
+    os.makedirs(d, exist_ok=True)
+    inp, out = os.path.join(d, "in.jsonl"), os.path.join(d, "out.jsonl")
+    t = 1.7e9
+    per_ac = {}
+    with open(inp, "w") as f:
+        for n, e in enumerate(sc["events"]):
+            per_ac[e["ac"]] = per_ac.get(e["ac"], 0) + 1
+            t += 0.5
+            if sc["variant"] == "silence" and per_ac[e["ac"]] == 5 and e["ac"] == sc["events"][0]["ac"]:
+                t += 700.0
+            f.write(json.dumps({"timestamp": t, "frame": e["hex"], "metadata": [{"system_timestamp": t, "serial": sc["sensor_index"] + 1}]}) + "\n")
+    ref = sc["sensors"][sc["sensor_index"]]
+    cmd = [exe, "--input", inp, "--output", out, "--deduplication", "0", f"--reference={ref['lat']},{ref['lon']}"]
+    r.t0 = r.t1 = t
+    try:
+        p = subprocess.run(cmd, cwd=d, stdout=subprocess.DEVNULL, stderr=subprocess.PIPE, text=True, timeout=60,
+                           env={"PATH": os.environ.get("PATH", ""), "HOME": d, "RUST_BACKTRACE": "0"})
+    except subprocess.TimeoutExpired:
+        r.error = "decode1090 did not finish within 60 s"
+        return r
+    if p.returncode != 0:
+        r.error = f"decode1090 exited with {p.returncode}: {p.stderr[-200:]}"
+        return r
+    r.lines = open(out).read().split("\n") if os.path.exists(out) else []
+    if r.lines and r.lines[-1] == "":
+        r.lines.pop()
+    return r
+
+
+def judge(label, prefix, runs, scs, cat, pid):
+    """evaluates the clauses of <pid> on the runs of one binary; returns a partial result"""
     viol = {}
     warnings = []
     outcomes = {}
 
     def violation(cls, what, witness):
-        v = viol.setdefault(cls, {"class": "e2e:" + cls, "what": "[jet1090 process, end to end] " + what, "count": 0, "witness": dict(witness, kind="e2e")})
+        v = viol.setdefault(cls, {"class": prefix + cls, "what": f"[{label} process, end to end] " + what, "count": 0, "witness": dict(witness, kind="e2e", family=label)})
         v["count"] += 1
 
     def outcome(k, n=1):
@@ -238,9 +279,7 @@ def main():
             warnings.append(f"scenario {r.name}: {r.error}")
             outcome("scenario-not-run")
     if len(started) * 2 < len(runs) or not started:
-        print(json.dumps({"machinery_error": f"{len(runs) - len(started)} of {len(runs)} scenarios could not be run", "warnings": warnings}))
-        shutil.rmtree(scratch, ignore_errors=True)
-        sys.exit(3)
+        return {"machinery_error": f"{label}: {len(runs) - len(started)} of {len(runs)} scenarios could not be run", "warnings": warnings}
     sent_ic = cat["sentinel_icao24"]
     total_lines = 0
     beats = {}      # scenario name -> arrival times of the heartbeat frames
@@ -316,15 +355,24 @@ def main():
         solo = {}
         for r in started:
             if r.name.startswith("solo:"):
-                solo.update(positions(r.name))
+                for ac, seq in positions(r.name).items():
+                    solo[(ac, r.sc.get("variant", ""))] = (r.name, seq)
+
+        def same(a, b):
+            if a is None or b is None or isinstance(a, str) or isinstance(b, str):
+                return a == b
+            return abs(a[0] - b[0]) < 1e-7 and abs(a[1] - b[1]) < 1e-7
         for r in started:
             if not r.name.startswith("mix:"):
                 continue
             for ac, seq in positions(r.name).items():
-                if ac in solo and solo[ac] != seq:
-                    diff = next((a, b) for a, b in zip(solo[ac], seq) if a != b)
+                ref = solo.get((ac, r.sc.get("variant", "")))
+                if ref is None or len(ref[1]) != len(seq):
+                    continue
+                diff = next(((a, b) for a, b in zip(ref[1], seq) if a[0] != b[0] or not same(a[1], b[1])), None)
+                if diff is not None:
                     violation("interference", f"scenario {r.name}: what is decoded for aircraft {ac} differs from its solo run (report {diff[0][0]}: alone {diff[0][1]}, interleaved {diff[1][1]})",
-                              {"scenarios": [r.name, "solo:" + ac]})
+                              {"scenarios": [r.name, ref[0]]})
     if pid == "C11":
         base = next((r for r in started if r.name == "kinds:0:cli"), None)
         if base is None:
@@ -472,10 +520,44 @@ def main():
                               {"scenarios": [seen[key][0], r.name], "frame": key})
                 elif key not in seen:
                     seen[key] = (r.name, core)
-    res = {"executions": sum(len(r.sc["events"]) for r in started), "scenarios": len(started), "lines": total_lines,
-           "violations": list(viol.values()), "outcomes": outcomes, "warnings": warnings, "wall_s": round(time.time() - t0, 2)}
-    print(json.dumps(res))
+    return {"executions": sum(len(r.sc["events"]) for r in started), "scenarios": len(started), "lines": total_lines,
+            "violations": list(viol.values()), "outcomes": outcomes, "warnings": warnings}
+
+
+def main():
+    exe, catp, pid, tier, scratch = sys.argv[1:6]
+    replay = sys.argv[6] if len(sys.argv) > 6 else None
+    t0 = time.time()
+    cat = json.load(open(catp))
     shutil.rmtree(scratch, ignore_errors=True)
+    os.makedirs(scratch)
+    make_cache(scratch)
+    groups = GROUPS[pid]
+    scs = [s for s in cat["scenarios"] if s["group"] in groups]
+    if replay:
+        w = json.load(open(replay)); w = w.get("witness", w)
+        names = set(w.get("scenarios", []))
+        scs = [s for s in scs if s["name"] in names or s["name"].startswith("solo:") or s["name"] == "kinds:0:cli"]
+    with ThreadPoolExecutor(max_workers=12) as ex:
+        runs = list(ex.map(lambda a: run_scenario(exe, cat, a[1], scratch, a[0]), enumerate(scs)))
+    parts = [judge("jet1090", "e2e:", runs, scs, cat, pid)]
+    d1090 = os.environ.get("E2E_DECODE1090")
+    if d1090 and pid in ("C06", "C07"):
+        dscs = decode1090_scenarios(scs)
+        with ThreadPoolExecutor(max_workers=12) as ex:
+            druns = list(ex.map(lambda a: run_decode1090(d1090, a[1], scratch, a[0]), enumerate(dscs)))
+        parts.append(judge("decode1090", "decode1090:", druns, dscs, cat, pid))
+    shutil.rmtree(scratch, ignore_errors=True)
+    bad = [p for p in parts if "machinery_error" in p]
+    if bad:
+        print(json.dumps({"machinery_error": "; ".join(p["machinery_error"] for p in bad), "warnings": sum((p["warnings"] for p in parts), [])}))
+        sys.exit(3)
+    res = {"executions": sum(p["executions"] for p in parts), "scenarios": sum(p["scenarios"] for p in parts), "lines": sum(p["lines"] for p in parts),
+           "violations": sum((p["violations"] for p in parts), []), "outcomes": {}, "warnings": sum((p["warnings"] for p in parts), []), "wall_s": round(time.time() - t0, 2)}
+    for n, p in enumerate(parts):
+        for k, v in p["outcomes"].items():
+            res["outcomes"][("" if n == 0 else "decode1090:") + k] = v
+    print(json.dumps(res))
 
 
 if __name__ == "__main__":
